@@ -1,4 +1,4 @@
----------------------------- MODULE AttrSurface ----------------------------
+---------------------------- MODULE AttrNormSurface ----------------------------
 (***************************************************************************)
 (* C11: the surface syntax of the documents used to exercise attribute     *)
 (* normalization and defaulting, and the expected observation.             *)
